@@ -12,6 +12,7 @@ pub mod huge;
 pub mod modes;
 pub mod more;
 pub mod names;
+pub mod wide;
 
 pub fn dispatch(ctx: &Ctx, rep: &mut Report) -> bool {
     match ctx.prop.as_str() {
